@@ -1,2 +1,4 @@
 SPECIFICATION TSpec
 CONSTRAINT JudgeP
+CONSTANTS
+  Variant = "fixed"
